@@ -81,6 +81,27 @@ func main() {
 			}
 			fmt.Printf("  VIOLATION %s %s inputs=%s obs=%v\n", v.Label, v.Detail, renderInputs(v.Inputs), v.Observe)
 		}
+	case "selfcheck":
+		env, err := LoadEnv()
+		if err != nil {
+			fmt.Println("load:", err)
+			os.Exit(2)
+		}
+		nb := newNativeBuilder()
+		defer nb.Close()
+		limit := 0
+		if len(os.Args) > 2 {
+			limit, _ = strconv.Atoi(os.Args[2])
+		}
+		res, viol := runCorpus(env, nb, modPath+"/notations/jschema/zzverif.ZZSelfCorpus", limit)
+		js, _ := json.MarshalIndent(res, "", " ")
+		fmt.Println(string(js))
+		for _, v := range viol {
+			fmt.Printf("expectation failed in engine: %v\n", v.Observe)
+		}
+		if len(res.Mismatches) > 0 || len(res.EngineFail) > 0 {
+			os.Exit(1)
+		}
 	case "replay":
 		data, err := os.ReadFile(os.Args[2])
 		if err != nil {
